@@ -10,7 +10,7 @@ git -C /repo worktree add --detach $W HEAD -q || exit 2
 : > $REPORT
 SUITE=". ./annotate/... ./internal/... ./osmapi/... ./osmgeojson/... ./osmtest/... ./osmxml/... ./replication/..."
 for d in /tmp/mut/C*/_out/m*; do
-  id=$(echo $d | sed 's#/tmp/mut/\(C[0-9]*\)/_out/\(m[0-9]\)#\1-\2#')
+  id=$(echo $d | sed "s#/tmp/mut/\(C[0-9]*\)/_out/\(m[0-9]\)#\1-${ROUND}\2#")
   [ -n "$1" ] && [ "$1" != "${id%%-*}" ] && continue
   demo=$(ls $d/demo_test.go $d/demo/main.go 2>/dev/null | head -1)
   [ -f "$d/patch.diff" ] && [ -n "$demo" ] || { echo "$id SKIP no patch/demo" >> $REPORT; continue; }
@@ -30,7 +30,7 @@ for d in /tmp/mut/C*/_out/m*; do
   dst=$W/$dir/zz_seeded_demo_test.go
   tests=$(sed -n 's/^func \(Test[A-Za-z0-9_]*\)(.*/\1/p' $demo | paste -sd'|')
   log=/tmp/mut/confirm_$id.log; : > $log
-  run_demo() { cp $demo $dst; (cd $W && timeout 600 go test -count=1 -run "^($tests)\$" ./$dir/ >> $log 2>&1); rc=$?; rm -f $dst; return $rc; }
+  run_demo() { for tf in $d/*_test.go; do cp $tf $W/$dir/zz_seeded_$(basename $tf); done; (cd $W && timeout 600 go test -count=1 -run "^($tests)\$" ./$dir/ >> $log 2>&1); rc=$?; rm -f $W/$dir/zz_seeded_*_test.go; return $rc; }
   echo "== clean tree demo" >> $log; run_demo; clean=$?
   (cd $W && git apply $d/patch.diff >> $log 2>&1) || { echo "$id FAIL patch does not apply to HEAD" >> $REPORT; continue; }
   echo "== build/vet" >> $log; (cd $W && go build ./... >> $log 2>&1 && go vet ./osmpbf/ ./osmxml/ ./annotate/... ./replication/ ./osmapi/ ./osmgeojson/ . >> $log 2>&1); build=$?
@@ -42,7 +42,7 @@ for d in /tmp/mut/C*/_out/m*; do
   echo "$id $verdict demo_clean=$clean build=$build suite=$suite demo_patched=$patched dir=$dir tests=$tests" >> $REPORT
   if [ $verdict = CONFIRMED ]; then
     s=/verif/seeded/$id; mkdir -p $s
-    cp $d/patch.diff $s/patch.diff; cp $demo $s/$(basename $demo); cp $d/README.md $s/README.md 2>/dev/null
+    cp $d/patch.diff $s/patch.diff; cp $d/*_test.go $s/ 2>/dev/null; cp $demo $s/$(basename $demo); cp $d/README.md $s/README.md 2>/dev/null
     tail -c 3000 $log > $s/confirm.log
     echo "$dir" > $s/.demo_dir; echo "$tests" > $s/.demo_tests
   fi
